@@ -207,7 +207,9 @@ CHECKS.update({
                 technique="PBT over generated consumer/producer histories under dsched schedules, built both as C++14 (detail::OpResult) and C++17 (std::optional); oracle = value ledger (unique tags, moved-from detection) + request/emplace/delivery accounting + quiescent round trip",
                 text="1-3 consumers (requestUpdate, getUpdate) and 1-3 producers (tryEmplaceUpdate(unique tag), updateRequested), up to 5 ops each; every engaged getUpdate result carries a live (not moved-from) payload whose tag was successfully emplaced and has not been delivered before; successful emplaces never exceed started requests, deliveries never exceed successful emplaces; at quiescence request -> emplace -> get round-trips.",
                 note=SC_NOTE + " Not a full linearizability check: the ledger conditions are necessary conditions of the sequential spec (each value at most once, only after a request).", design_ref="§4 C24",
-                parts=[e1("sync2", "async"), e1("sync2", "async", variant="dsched17", quick=3000, thorough=150000)], assumptions=E1_ASSUME),
+                parts=[e1("sync2", "async", quick=3000), e1("sync2", "async", variant="dsched17", quick=3000, thorough=150000),
+                       e1("sync2", "async", variant="dschedF", quick=8000, thorough=200000), e1("sync2", "async", variant="dschedF17", quick=3000, thorough=100000)],
+                assumptions=E1_ASSUME + ["fine-grained parts (dschedF*): plain memory accesses of the harness and of AsyncRequest are schedule points too, so a consumer can be preempted in the middle of moving the stored value"]),
     "C25": dict(title="ResourcePool bounds and exclusivity", level="exploration",
                 technique="PBT over generated acquire/hold/release programs (destruction, move construction, move-assignment onto a live handle) under dsched schedules; oracle = per-resource holder flag (CAS), held counter, constructor/destructor ledger, deadlock detector",
                 text="Pool sizes 1-4, 2-5 threads; every acquired resource's holder flag is taken by CAS (failure = two handles on one resource); held <= size at all times; after all handles are gone all `size` resources can be acquired again and are distinct; each resource constructed and destroyed exactly once by the end of the pool; an acquirer that is never woken although resources are free shows as a deadlock report. Two-handle operations only when size >= threads+1 (otherwise the program itself could deadlock).",
